@@ -21,6 +21,10 @@ CLAIMED = {
          "QRegExp is an oracle (tabulated by calling it directly); sub-handler patterns start-anchored."),
  "C06": ("Theorems for EVERY tree/path/regexp engine/accept assignment: gate (every consulted middleware but the last accepted; outcome is a refusal iff the last consulted refused and then contains nothing else), consulted_in_attachment_order (= all middleware of the handler and its ancestors on the route, in order, up to the first refusal), route_refines_outcome. Tie: as C05 plus refusing and request-dependent middleware and several connections through one tree.",
          "QRegExp is an oracle; the refusing middleware of the harness answers 403."),
+ "C07": ("Theorems: contained (for EVERY file system, request path - dot segments, encoded/doubly encoded dots and slashes, absolute spellings, empty segments - and document-root spelling: whatever is served lies inside the cleaned document root), walk_is_clean (the kernel's walk of the uncleaned path ends at the cleaned path), reachable (plain relative paths of existing entries are served). Tie: FilesystemHandler over a scratch tree with canaries outside the root: all paths over a segment alphabet up to 3-4 segments + random longer ones x 4 root spellings; spec checker: outside the lexical root -> 404, existing plain paths -> 200 with the content.",
+         "no symbolic links; QDir::cleanPath/absoluteFilePath/relativeFilePath and the kernel path walk are modelled (FsModel.v) and compared on every run; ASCII paths."),
+ "C08": ("Theorems: file_response_shape (every content, every Range header: 200 whole file or 206 with Content-Range bytes a-b/size, 0<=a<=b<size, Content-Length b-a+1, body = bytes a..b), partial_iff (206 exactly for a valid first range, a..b that range; via the C16 theorems), copier_delivers (C14, every block size), listing_names_entries, html_escape_clean. Tie: FilesystemHandler serving files 0..12 bytes with every range spec with bounds in [-2,size+2], malformed/multi/other-unit/large headers, block-boundary sizes (thorough), directory listings with names needing escaping.",
+         "Content-Type ignored; '-0' excluded; the handler's block size is fixed (65536): block sizes 1..size+1 are covered by C14."),
  "C09": ("Theorems: admit_iff (admitted iff 'Basic' in any case, one space, a space-free token that decodes to user:password with that exact user registered with that exact password), spec_admits_iff / model_meets_spec (the boolean statement evaluated on implementation observations is the same predicate), refusal_response (401 + WWW-Authenticate: Basic realm=..., page, close), admitted_silent, token_exists (fromBase64 (toBase64 s) = s for every byte string). Tie: BasicAuthMiddleware::process on a Socket over SimTcp vs. model: credential tables x structured near misses; fromBase64/toBase64 vs. model.",
          "'base64-decodes to' is Qt's lenient decoder (modelled, compared on every run); users/passwords valid UTF-8."),
  "C15": ("Theorems: exact_name (the registration in force is the last one under exactly that name), unregistered_404, bad_slot_500, invoke_now / deferred_otherwise (deferred exactly when the whole body is asked for and fewer than the declared bytes are readable), deferred_invoked_once (for EVERY segmentation: exactly once iff the N-th byte arrives, nothing afterwards), full_body_at_invocation. Tie: QObjectHandler as root of the real server wiring over SimTcp: registries through the four registration forms + bad slots x paths x bodies x segmentations; the slot logs bytesAvailable().",
